@@ -28,6 +28,7 @@ pub fn dispatch(
         "equal" => equal(args, thorough, total, bounds),
         "wrong-needle" => wrong_needle(args, thorough, seed, total, bounds),
         "memchr-alloc" => memchr_alloc(args, thorough, total, bounds),
+        "pf" => pf(args, thorough, seed, total, bounds),
         _ => return false,
     }
     true
@@ -749,4 +750,45 @@ fn memchr_alloc(args: &Args, thorough: bool, total: &mut Report, bounds: &mut Ma
     });
     total.merge(rep);
     bounds.insert("memchr-alloc".into(), json!({"full_binary_len": [0, lmax], "long_lens": [31, 32, 33, 64, 100, 257, 1000]}));
+}
+
+/// C10: prefilter-history haystacks, built per (needle, ranker) from the pair
+/// that ranker selects, searched by finders built with that ranker under
+/// both prefilter settings (one-shot and complete iteration).
+fn pf(args: &Args, thorough: bool, seed: u64, total: &mut Report, bounds: &mut Map<String, Value>) {
+    let rankers: Vec<String> = args
+        .str("rankers", "default,zero,max255,identity,reversed,needle-common,needle-rare,perm1,perm2")
+        .split(',')
+        .map(|s| s.to_string())
+        .collect();
+    let needles = spaces::pf_needles();
+    let mut items: Vec<(usize, String)> = vec![];
+    for ni in 0..needles.len() {
+        for r in &rankers {
+            items.push((ni, r.clone()));
+        }
+    }
+    let rep = par::run_items(&items, |_, (ni, rid), r| {
+        let needle = &needles[*ni];
+        let pair = match subj::ranker_or_default(rid, needle, seed) {
+            None => Pair::new(needle),
+            Some(t) => Pair::with_ranker(needle, &t),
+        }
+        .expect("pair");
+        let kinds = [
+            Kind::Ranked(rid.clone(), true),
+            Kind::Ranked(rid.clone(), false),
+            Kind::RankedAll(rid.clone(), true),
+            Kind::RankedAll(rid.clone(), false),
+        ];
+        let mut ctx = Ctx::new();
+        ctx.set_needle(needle);
+        let subjects = build_all(r, &kinds, needle, None, seed);
+        let hays = spaces::pf_haystacks(needle, pair.index1() as usize, pair.index2() as usize, thorough);
+        for (hi, h) in hays.iter().enumerate() {
+            check_hay(&mut ctx, r, &subjects, needle, h, Place::Plain, hi % 16, None, hi as u64);
+        }
+    });
+    total.merge(rep);
+    bounds.insert("pf".into(), json!({"needles": needles.len(), "rankers": rankers, "grid": "prefix {0,100,1000[,400,20000]} x false candidates {0,49,50,51,70[,10,48,52,60]} x gap {1,2,5,7,8,9,12 [1..=12]} x match distance {none,0,7[,1,40]}, each followed by a second run and a second match", "built_from": "the pair the ranker selects for the needle"}));
 }
